@@ -1,13 +1,13 @@
 SPECIFICATION Spec
 CONSTANTS
  Ids = {"a", "b"}
- MaxB = 2
+ MaxB = 3
  BatchShapes <- Shapes2
  Writers = {w1}
  Safe = FALSE
  KeepN = 1
- MaxEp = 6
- MaxSid = 4
+ MaxEp = 7
+ MaxSid = 6
  WithReader = FALSE
  WithCopy = TRUE
  WithMerger = TRUE
@@ -15,11 +15,11 @@ CONSTANTS
  WithMemMerge = FALSE
  MaxMergeInputs = 2
  AsyncRelease = FALSE
-  WithMergeFail = FALSE
- BuilderBase = FALSE
+ WithMergeFail = FALSE
+ BuilderBase = TRUE
  CopySchedById = FALSE
  MaxOpens = 1
 CONSTRAINT Bound
-INVARIANTS RootIsReplay HeldAreReplays BoltFilesOnDisk RootFilesOnDisk CopyFilesOnDisk CopyIsPrefix
+INVARIANTS RootIsReplay UniqueLive HeldAreReplays EveryBoltIsAState Durable NewestLoads RollbackOK BoltFilesOnDisk RootFilesOnDisk RootFilesProtected CopyFilesOnDisk CopyIsPrefix NoOrphansWhenQuiescent
 PROPERTIES LayoutStutters ReaderStable
 CHECK_DEADLOCK FALSE
